@@ -13,7 +13,7 @@ ASSUMPTIONS = ['this property is decided directly on the real compiler (metamorp
                '(no rule inside a rule / no @media inside a rule / no variable token in an evaluated value)']
 TRUSTED = ['the plain-CSS detector below (regex-based, quote aware)']
 LEVEL_NOTE = 'partial'
-FEATURES = ['media', 'amp', 'leadcomb', 'var', 'keyframes', 'fontface', 'stmt', 'str', 'rstr', 'istr', 'url', 'attr', 'pseudo2', 'noglue']     # noglue: no '&&' (two parents glued: 'nav'+'h1' = an element name the front end does not read back)
+FEATURES = ['media', 'amp', 'leadcomb', 'var', 'keyframes', 'fontface', 'stmt', 'str', 'rstr', 'istr', 'url', 'attr', 'pseudo2', 'pseudofn', 'noglue']     # noglue: no '&&' (two parents glued: 'nav'+'h1' = an element name the front end does not read back)
 
 
 def strip_strings(css):
